@@ -19,8 +19,9 @@ TOOL = 3  # any free id 0..5
 
 
 class LineMon:
-    def __init__(self, repo_root, p_yield=0.0, seed=0, failpoint=None):
+    def __init__(self, repo_root, p_yield=0.0, seed=0, failpoint=None, only_files=None):
         self.prefix = os.path.join(os.path.realpath(repo_root), "ofxtools") + os.sep
+        self.only_files = tuple(only_files) if only_files else None  # e.g. ("Client.py",): cheaper, targeted
         self.p = p_yield
         self.rng = random.Random(seed)
         self.events = 0
@@ -34,6 +35,8 @@ class LineMon:
 
     def _line(self, code, lineno):
         if not code.co_filename.startswith(self.prefix):
+            return sys.monitoring.DISABLE
+        if self.only_files and not code.co_filename.endswith(self.only_files):
             return sys.monitoring.DISABLE
         tid = threading.get_ident()
         with self._lock:
